@@ -71,6 +71,8 @@ WitMenu ==
   \cup UNION { { [t |-> TBig(n), v |-> [Known(x) EXCEPT !.bits = BitLen(x)], j |-> [k |-> "BigUint", v |-> x]] :
                     x \in {y \in {0, 1, 3, 200, 255, 4660, 65535} : BitLen(y) <= n} } : n \in {1, 8, 16, 64} }
   \cup { [t |-> TBig(n), v |-> OpaqueBits(n), j |-> [k |-> "BigUint", pow2 |-> n, minus |-> 1]] : n \in {64, 200, 257} }
+  \* values of two and three limbs (96 bits each) whose low limb is the small value 3
+  \cup { [t |-> TBig(n + 1), v |-> OpaqueBits(n + 1), j |-> [k |-> "BigUint", pow2 |-> n, plus |-> 3]] : n \in {96, 192} }
   \cup { [t |-> TBytes(n), v |-> KnownBytes([i \in 1..n |-> (37 * i + n) % 256]), j |-> [k |-> "Bytes", v |-> [i \in 1..n |-> (37 * i + n) % 256]]] :
            n \in {0, 1, 2, 4, 31, 32, 33, 70} }
   \cup { [t |-> TPoint, v |-> Opaque, j |-> [k |-> "Point", v |-> d]] : d \in {0, 1, 2, -1} }
@@ -104,10 +106,11 @@ BadConsts == {"Native:zz", "0xAAA", "Jubjub:00", "nosuchname"}
 
 \* ---- operands -------------------------------------------------------------
 Recent == IF Len(env) <= 5 THEN env ELSE SubSeq(env, Len(env) - 4, Len(env))
-\* (directed mode - see DirectedNext - works on the most recently bound name only)
+\* (directed modes - see DirectedNext / DirectedNext2 - work on the most recently bound name, or on the last two, only)
+OperandOf(e) == [s |-> e.name, t |-> e.t, v |-> [known |-> e.known, i |-> e.i, bs |-> e.bs, bits |-> e.bits]]
 Operands ==
-  IF Directed /\ env # <<>>
-  THEN LET e == env[Len(env)] IN { [s |-> e.name, t |-> e.t, v |-> [known |-> e.known, i |-> e.i, bs |-> e.bs, bits |-> e.bits]] }
+  IF Directed = 1 /\ env # <<>> THEN { OperandOf(env[Len(env)]) }
+  ELSE IF Directed = 2 /\ env # <<>> THEN { OperandOf(env[i]) : i \in {j \in 1..Len(env) : j >= Len(env) - 1} }
   ELSE
   { [s |-> Recent[i].name, t |-> Recent[i].t, v |-> [known |-> Recent[i].known, i |-> Recent[i].i, bs |-> Recent[i].bs, bits |-> Recent[i].bits]] :
       i \in 1..Len(Recent) }
@@ -331,6 +334,12 @@ DirectedNext ==
   \/ (Len(prog) \in {1, 2} /\ (AConvert \/ ANeg \/ AHash))
   \/ (Len(prog) \in {2, 3} /\ APublish)
 DirectedSpec == Init /\ [][DirectedNext]_vars
+\* Directed binary programs: two loads; one binary operation on them (either order, also an operand with itself); publish.
+DirectedNext2 ==
+  \/ (Len(prog) \in {0, 1} /\ ALoad)
+  \/ (Len(prog) = 2 /\ ABinary)
+  \/ (Len(prog) = 3 /\ APublish)
+Directed2Spec == Init /\ [][DirectedNext2]_vars
 
 ---------------------------------------------------------------------------
 TypeOK == status \in {"ok", "load_error", "exec_error", "failed", "any"}
